@@ -388,7 +388,7 @@ impl Op {
                 }
             }
             Kind::Logger => {
-                if self.which > 4 {
+                if self.which > 5 {
                     return bad("logger mode");
                 }
             }
@@ -922,7 +922,7 @@ impl Gen<'_> {
             }
             8 => {
                 let mut op = Op::blank(Kind::Logger);
-                op.which = self.r.below(5);
+                op.which = self.r.below(6);
                 op
             }
             _ => {
